@@ -143,6 +143,39 @@ def shard(ctx: Ctx) -> None:
 
         ctx.search(g.st_subroutine(fname, 15), body_sub, n // 12, name=f"c17-sub-{fname}", salt=10 + fi)
     if ctx.shard == 0:
+        # the same printed line / the same 7 bytes mean different instructions in different flavours: text -> binary -> text for
+        # every class with all-zero operands, flavours alternating in opcode order (both orders)
+        import copy
+
+        from checks.c02 import _ZERO
+        from netqasm.lang.parsing import deserialize
+        from vlib import refenc
+
+        items = []
+        fl = list(g.FLAVOURS)
+        for fname in fl:
+            for cls in g.flavour_classes(fname):
+                op = refenc.TABLE[fname].get(cls.mnemonic)
+                if op is not None:
+                    items.append((op[0], fname, cls))
+        n_x = 0
+        for order in (sorted(items, key=lambda t: (t[0], fl.index(t[1]))), sorted(items, key=lambda t: (t[0], -fl.index(t[1])))):
+            for _op, fname, cls in order:
+                vals = [copy.deepcopy(_ZERO[k]) for _n, k in g.shape_of(cls)]
+                case = {"kind": "cross", "flavour": fname, "cls": cls.__name__, "vals": vals}
+                n_x += 1
+
+                def one(fname=fname, cls=cls, vals=vals, case=case):
+                    instr = g.build(cls, vals)
+                    text = str(instr)
+                    sub = _parse("# NETQASM 0.0\n# APPID 0\n" + text, fname)
+                    back = deserialize(bytes(sub), flavour=_flavour(fname, "long-lived"))
+                    text2 = "\n".join(str(i) for i in back.instructions)
+                    if text2 != text or [type(i) for i in back.instructions] != [cls]:
+                        raise Failure(f"sub:not-fixed-point:cross-flavour:{fname}:{cls.mnemonic}", case, f"{text!r} of flavour {fname} -> binary -> text gave {text2!r} ({[type(i).__module__.split('.')[-1] + '.' + type(i).__name__ for i in back.instructions]}) after other flavours decoded the same bytes")
+
+                ctx.attempt(case, one)
+        stt.exhaustive_domains["every class, all-zero operands, text->binary->text with flavours alternating in opcode order"] = n_x
         # enumerated: every class with the field-distinguishing valuations of C02
         from checks.c02 import enumerated_cases
 
@@ -157,6 +190,8 @@ def shard(ctx: Ctx) -> None:
 
 def replay(case):
     try:
+        if case["kind"] == "cross":
+            return None  # order-dependent by construction: replayed by the run itself
         if case["kind"] == "reprint":
             check_reprint(case["flavour"], case["cls"], case["vals"], case["vals2"])
         elif case["kind"] == "instr":
